@@ -33,7 +33,7 @@ func plainWrites(scripts ...*chain.Script) {
 			if s.Ops[i].K == chain.OpWrite && s.Ops[i].N == 1 {
 				s.Ops[i].N = 0
 			}
-			if s.Ops[i].K == chain.OpBlob {
+			if s.Ops[i].K == chain.OpBlob && s.Ops[i].S2 != "stream" {
 				s.Ops[i].S = "" // Context.Blob panics on a write error too
 			}
 		}
@@ -75,7 +75,12 @@ func genOp(t *rapid.T) chain.Op {
 		return chain.Op{K: rapid.SampledFrom([]chain.OpKind{chain.OpCopy, chain.OpWrapResp}).Draw(t, "copyOrWrap")}
 	case 11:
 		// a response helper: status and content type, and the data - which may be empty ("only write headers")
-		return chain.Op{K: chain.OpBlob, N: rapid.SampledFrom([]int{200, 201, 404, 500}).Draw(t, "blobStatus"), S: rapid.SampledFrom([]string{"", "", "blob"}).Draw(t, "blobData")}
+		op := chain.Op{K: chain.OpBlob, N: rapid.SampledFrom([]int{200, 201, 404, 500}).Draw(t, "blobStatus"), S: rapid.SampledFrom([]string{"", "", "blob"}).Draw(t, "blobData")}
+		if rapid.IntRange(0, 2).Draw(t, "stream") == 0 {
+			op.S2 = "stream" // Context.Stream: the body comes from a reader, after earlier writes or before later ones
+			op.S = rapid.SampledFrom([]string{"", "streamed", strings.Repeat("0123456789", 4000)}).Draw(t, "streamData")
+		}
+		return op
 	default:
 		return chain.Op{K: chain.OpRespWriteHeader, N: codeGen.Draw(t, "code")}
 	}
